@@ -38,6 +38,8 @@ variable {R : Type} [Scalar R]
 @[inline] def smul (s : R) (a : P2 R) : P2 R := ⟨s * a.x, s * a.y⟩
 /-- `Point::operator/(scalar)`: multiplies by `1/scalar` (point.h:216-224) -/
 @[inline] def sdiv (a : P2 R) (s : R) : P2 R := let inv := (1 : R) / s; ⟨a.x * inv, a.y * inv⟩
+/-- `Point * double` -/
+@[inline] def smul' (a : P2 R) (s : R) : P2 R := ⟨a.x * s, a.y * s⟩
 @[inline] def dot (a b : P2 R) : R := a.x * b.x + a.y * b.y
 @[inline] def normSq (a : P2 R) : R := a.x * a.x + a.y * a.y
 @[inline] def norm (a : P2 R) : R := sqrt (a.x * a.x + a.y * a.y)
@@ -54,6 +56,8 @@ variable {R : Type} [Scalar R]
 @[inline] def smul (s : R) (a : P3 R) : P3 R := ⟨s * a.x, s * a.y, s * a.z⟩
 /-- `Point::operator/(scalar)`: multiplies by `1/scalar` -/
 @[inline] def sdiv (a : P3 R) (s : R) : P3 R := let inv := (1 : R) / s; ⟨a.x * inv, a.y * inv, a.z * inv⟩
+/-- `Point * double` -/
+@[inline] def smul' (a : P3 R) (s : R) : P3 R := ⟨a.x * s, a.y * s, a.z * s⟩
 /-- `Point<3>::operator*` : `x*x' + y*y' + z*z'` summed left to right (point.h) -/
 @[inline] def dot (a b : P3 R) : R := a.x * b.x + a.y * b.y + a.z * b.z
 @[inline] def normSq (a : P3 R) : R := a.x * a.x + a.y * a.y + a.z * a.z
